@@ -587,7 +587,7 @@ Definition step (sc : scenario) (s : state) (e : event) : option state :=
     | Some n =>
       match lookup j (n_queue n) with
       | Some [] =>
-        if n_alive n && negb (memN j (launched s)) && (N.of_nat (length (n_running n)) <? n_depth n)
+        if n_alive n && (N.of_nat (length (n_running n)) <? n_depth n)
            && (if hk_node_setup (sc_hooks sc) then n_setup n else true) && negb (n_teardown n) then
           Some {| created := created s; st := st s; bl := bl s; ids := ids s; next_index := next_index s;
                   holder := holder s; marker := marker s; complete := complete s; canceled := canceled s;
